@@ -845,7 +845,7 @@ fn node_ref<'b>(n: &'b GNode, path: &[usize]) -> &'b GNode {
 pub const DEFECTS: &[&str] = &[
     "unknown-element", "misplaced-element", "unknown-attribute", "unknown-enum-item", "foreign-enum-item", "version-element", "version-element-nested", "version-attribute",
     "version-enum-item", "choice-conflict", "multiplicity", "multiplicity-nonadjacent", "missing-short-name", "missing-short-name-empty", "missing-required-attr", "too-long", "pattern-mismatch",
-    "not-a-number", "bad-entity", "bad-entity-sign", "trailing-data", "tail-misc-only", "bad-version", "bad-namespace", "header-inside", "text-forbidden",
+    "not-a-number", "bad-entity", "bad-entity-combined", "bad-entity-sign", "trailing-data", "tail-misc-only", "bad-version", "bad-namespace", "header-inside", "text-forbidden",
     "invalid-utf8", "element-in-chars", "empty-value",
 ];
 
@@ -1189,7 +1189,7 @@ impl<'a> G<'a> {
                         return true;
                     }
                 }
-                "too-long" | "pattern-mismatch" | "not-a-number" | "bad-entity" | "bad-entity-sign" | "invalid-utf8" | "empty-value" => {
+                "too-long" | "pattern-mismatch" | "not-a-number" | "bad-entity" | "bad-entity-combined" | "bad-entity-sign" | "invalid-utf8" | "empty-value" => {
                     let mut sites: Vec<(Option<String>, &CharacterDataSpec)> = Vec::new();
                     if mode == ContentMode::Characters {
                         if let Some(s) = et.chardata_spec() {
@@ -1253,6 +1253,26 @@ impl<'a> G<'a> {
                             ("bad-entity", CharacterDataSpec::String { .. }) => {
                                 const B: &[&str] = &["a&foo;b", "&#xZZ;", "&#1114112;", "x&#xD800;", "a & b", "&#;", "&#x;", "&amp", "&;", "&#x110000;", "&#65", "&lt", "&AMP;", "&#-65;", "&#x 41;", "&#4294967296;"];
                                 Some(GText::raw(B[self.rng.below(B.len() as u64) as usize].as_bytes()))
+                            }
+                            ("bad-entity-combined", CharacterDataSpec::String { .. }) => {
+                                // ONE value with a malformed entity AND well-formed references, in every order (round-robin): the finding
+                                // must be reported no matter what follows or precedes it ("R&D &#169; 2024")
+                                const BAD: &[&str] = &["&", "& ", "&quot", "&#xZZ;", "&#1114112;", "&foo;", "&#;", "&#xD800;"];
+                                const OK: &[&str] = &["&#169;", "&#xA9;", "&amp;", "&#65;", "&#x41;", "&lt;"];
+                                let k = self.tcur;
+                                self.tcur += 1;
+                                let b = BAD[k % BAD.len()];
+                                let o = OK[(k / BAD.len()) % OK.len()];
+                                let o2 = OK[(k / 3) % OK.len()];
+                                let v = match (k / (BAD.len() * OK.len())) % 5 {
+                                    0 => format!("R{}D {} 2024", b, o),
+                                    1 => format!("{} x {}", o, b),
+                                    2 => format!("{} {} {}", b, o, b),
+                                    3 => format!("{} {} {}", o, b, o2),
+                                    _ => format!("a{} {} {}", b, o, o2),
+                                };
+                                self.stat(&format!("bad-entity-combined.order{}", (k / (BAD.len() * OK.len())) % 5));
+                                Some(GText::raw(v.as_bytes()))
                             }
                             ("bad-entity-sign", CharacterDataSpec::String { .. }) => {
                                 const B: &[&str] = &["&#x+41;", "&#+65;", "a&#x+0041;b"];
@@ -1824,6 +1844,47 @@ pub fn main(args: &[String]) {
                 }
             }
             g.stat("near-member.regexes");
+            // length-limited pattern types: over-long values (and values of exactly the limit) with a multi-byte character or an
+            // invalid byte at every offset around the limit
+            let mut maxlens: Vec<usize> = Vec::new();
+            for (_, t, is_attr, _) in ss.iter() {
+                let ml = if *is_attr {
+                    t.attribute_spec_iter().find_map(|(_, c, _)| if let CharacterDataSpec::Pattern { regex: r, max_length, .. } = c { if *r == regex.as_str() { *max_length } else { None } } else { None })
+                } else if let Some(CharacterDataSpec::Pattern { max_length, .. }) = t.chardata_spec() {
+                    *max_length
+                } else {
+                    None
+                };
+                if let Some(m) = ml {
+                    if !maxlens.contains(&m) {
+                        maxlens.push(m);
+                    }
+                }
+            }
+            for m in maxlens {
+                const INS: &[&[u8]] = &["\u{fc}".as_bytes(), "\u{20ac}".as_bytes(), "\u{1F600}".as_bytes(), b"\xff", b"\xc3", b"\xe2\x82", b"\xf0\x9f\x98"];
+                let mut count = 0;
+                for off in (m.saturating_sub(4))..=(m + 1) {
+                    for ins in INS {
+                        for total in [m, m + 1, m + 4] {
+                            let mut val = vec![b'a'; off];
+                            val.extend_from_slice(ins);
+                            while val.len() < total {
+                                val.push(b'b');
+                            }
+                            let (vi, t, is_attr, _) = ss[count % ss.len()];
+                            count += 1;
+                            let mut tree = g.gen_doc(vers[vi], &chains_all[vi], Some(t), 3);
+                            if set_pattern_value(&mut tree, regex, &val, is_attr) {
+                                let st = g.style();
+                                let doc = g.render(&tree, &st);
+                                write_case(&mut fmut, &doc, "mut:overlong-multibyte-at-limit");
+                                g.stat("mutant.overlong-multibyte-at-limit");
+                            }
+                        }
+                    }
+                }
+            }
         }
     }
     // valid documents of the classes that are known to be mishandled
@@ -1868,7 +1929,9 @@ pub fn main(args: &[String]) {
     for class in DEFECTS {
         let mut made = 0;
         let mut tries = 0;
-        let per_class = if *class == "trailing-data" && !thorough {
+        let per_class = if *class == "bad-entity-combined" {
+            if thorough { 480 } else { 240 }
+        } else if *class == "trailing-data" && !thorough {
             110
         } else if *class == "version-element-nested" { if thorough { nested_sites.len().max(per_class) } else { 160 } } else { per_class };
         while made < per_class && tries < per_class * 30 {
